@@ -89,6 +89,7 @@ type form struct {
 	Msg    string    `json:"message,omitempty"`
 	ID     int       `json:"id,omitempty"`
 	Cont   bool      `json:"continue,omitempty"`
+	Twice  bool      `json:"continue_twice,omitempty"` // the whopper calls (continue-whopper) twice: a retry
 	Alt    bool      `json:"alt_syntax,omitempty"` // whopper written as (defmethod (f :whopper m)) / primary as (f :primary m)
 	Lisp   string    `json:"lisp,omitempty"`
 	Out    string    `json:"outcome,omitempty"`
@@ -160,7 +161,11 @@ func (f *form) coq() string {
 		return fmt.Sprintf("DFlavor %d %s %s %s %s %s {| io_inits := %s; io_reqs := %s |}", f.F, gbindings(f.Vars), gnats(f.Comps),
 			gbindings(keys), accCoq(f.Gets), accCoq(f.Sets), accCoq(f.Inits), gnats(f.Reqs))
 	}
-	return fmt.Sprintf("DMethod %d %s (%s) %d %s", f.F, daemonCoq[f.Daemon], msgs[msgIndex(f.Msg)].coq, f.ID, common.GBool(f.Cont))
+	cont := common.GBool(f.Cont)
+	if f.Cont && f.Twice {
+		cont = "CTwice"
+	}
+	return fmt.Sprintf("DMethod %d %s (%s) %d %s", f.F, daemonCoq[f.Daemon], msgs[msgIndex(f.Msg)].coq, f.ID, cont)
 }
 
 func lispVal(v *int64) string {
@@ -229,6 +234,9 @@ func (f *form) lisp(name func(int) string) string {
 		body := fmt.Sprintf("(c11tr %d) (c11tr %d) %d", f.ID, -f.ID, f.ID)
 		if f.Cont {
 			body = fmt.Sprintf("(c11tr %d) (let ((r (continue-whopper))) (c11tr %d) r)", f.ID, -f.ID)
+			if f.Twice {
+				body = fmt.Sprintf("(c11tr %d) (continue-whopper) (let ((r (continue-whopper))) (c11tr %d) r)", f.ID, -f.ID)
+			}
 		}
 		if f.Alt {
 			return fmt.Sprintf("(defmethod (%s :whopper %s) (&rest args) %s)", name(f.F), f.Msg, body)
@@ -406,6 +414,10 @@ func genProgram(r *common.Rng, n, nm int, ctx *common.Ctx) []form {
 		id++
 		f.ID = id
 		f.Cont = f.Daemon == "whopper" && r.Chance(85)
+		f.Twice = f.Cont && r.Chance(25)
+		if f.Twice {
+			ctx.Hist("whopper-continues-twice")
+		}
 		f.Alt = r.Chance(30) && (f.Daemon == "whopper" || f.Daemon == "primary")
 		ctx.Hist("daemon:" + f.Daemon)
 		prog = append(prog, f)
@@ -1096,6 +1108,51 @@ func siblingPrograms() []siblingProgram {
 	return out
 }
 
+// whopperPrograms: the systematic block "how often each whopper of a chain continues".  leaf <- mid <- base, a whopper
+// for :go on each of the three, continuing 0, 1 or 2 times (all 27 assignments), a :before daemon and the primary on
+// base, an :after daemon on mid; once with the whoppers defined after the flavors (insertMethod) and once before.
+func whopperPrograms() []siblingProgram {
+	var out []siblingProgram
+	for code := 0; code < 27; code++ {
+		cs := []int{code % 3, code / 3 % 3, code / 9}
+		flav := []form{{Kind: "flavor", F: 1}, {Kind: "flavor", F: 2, Comps: []int{1}}, {Kind: "flavor", F: 3, Comps: []int{2}}}
+		var meths []form
+		id := 0
+		add := func(f int, daemon string, c int) {
+			id++
+			meths = append(meths, form{Kind: "method", F: f, Msg: ":go", Daemon: daemon, ID: id, Cont: c > 0, Twice: c > 1})
+		}
+		for i, c := range cs {
+			add(3-i, "whopper", c) // leaf first: the outermost
+		}
+		add(1, "before", 0)
+		add(1, "primary", 0)
+		add(2, "after", 0)
+		h1 := append(append([]form{}, flav...), meths...)
+		h2 := []form{flav[0]}
+		for _, m := range meths {
+			if m.F == 1 {
+				h2 = append(h2, m)
+			}
+		}
+		h2 = append(h2, flav[1])
+		for _, m := range meths {
+			if m.F == 2 {
+				h2 = append(h2, m)
+			}
+		}
+		h2 = append(h2, flav[2])
+		for _, m := range meths {
+			if m.F == 3 {
+				h2 = append(h2, m)
+			}
+		}
+		out = append(out, siblingProgram{forms: [][]form{h1, h2}, n: 3,
+			label: fmt.Sprintf("whoppers leaf/mid/base continue %d/%d/%d times", cs[0], cs[1], cs[2])})
+	}
+	return out
+}
+
 // nontrivial: some flavor has a component and some method is defined on a flavor that another one inherits
 func nontrivial(hist []form) bool {
 	inherited := map[int]bool{}
@@ -1188,7 +1245,7 @@ func Run(ctx *common.Ctx) {
 		}
 	}
 	// the systematic block: flavors built on one shared base (every base size 1..7 x 2 or 3 tops x 4 variants, two orders each)
-	for _, sp := range siblingPrograms() {
+	for _, sp := range append(siblingPrograms(), whopperPrograms()...) {
 		progNo++
 		rn.makeLists = map[int][][]int{}
 		canon := ""
